@@ -21,6 +21,7 @@ pub enum ServerKind {
 }
 
 #[derive(Clone, Debug, Serialize, Deserialize)]
+#[serde(default)]
 pub struct NetRates {
     // per-exchange weights of the adversary's top-level choice; index 0 = none
     pub none: u32,
@@ -99,6 +100,7 @@ pub const NET_KINDS: [&str; 14] = [
 ];
 
 #[derive(Clone, Debug, Serialize, Deserialize)]
+#[serde(default)]
 pub struct DiskRates {
     pub fail_set: u32,
     pub fail_remove: u32,
@@ -125,6 +127,7 @@ impl DiskRates {
 }
 
 #[derive(Clone, Debug, Serialize, Deserialize)]
+#[serde(default)]
 pub struct PolicyWeights {
     // update_check_allowed: Ok, OkUpdateDeferred, TooSoon, Throttled, Denied
     pub check: [u32; 5],
@@ -157,6 +160,7 @@ impl Default for PolicyWeights {
 }
 
 #[derive(Clone, Debug, Serialize, Deserialize)]
+#[serde(default)]
 pub struct InstallerWeights {
     pub plan_fail_permille: u32,
     // per app: Installed, Deferred, Failed
@@ -184,6 +188,7 @@ impl Default for InstallerWeights {
 }
 
 #[derive(Clone, Debug, Serialize, Deserialize)]
+#[serde(default)]
 pub struct ServerWeights {
     /// per-app updatecheck outcome: noupdate, ok, error-*, restricted(app status), absent updatecheck
     pub app_outcome: [u32; 5],
@@ -221,6 +226,7 @@ impl Default for ServerWeights {
 }
 
 #[derive(Clone, Debug, Serialize, Deserialize)]
+#[serde(default)]
 pub struct Profile {
     pub name: String,
     pub mode: Mode,
@@ -332,5 +338,22 @@ impl Profile {
             neighbour_permille: 0,
             dup_app_permille: 0,
         }
+    }
+}
+
+// older replay files lack knobs added later: missing fields take the base value
+impl Default for Profile {
+    fn default() -> Self {
+        Profile::base("default")
+    }
+}
+impl Default for NetRates {
+    fn default() -> Self {
+        NetRates::clean()
+    }
+}
+impl Default for DiskRates {
+    fn default() -> Self {
+        DiskRates::clean()
     }
 }
